@@ -10,6 +10,7 @@ from sim.loop import SimCap, SimDeadlock, SimLoop
 from sim.trace import Trace
 
 boot.boot()
+boot.patch_ids()
 
 
 class SimpleWorld:
